@@ -165,11 +165,12 @@ def h_pit_mode(H, training):
 
 
 # ------------------------------------------------------------------------------------------------- MPS
-def _mps_model(H, spec, full_cost):
-    act = MPSPerLayerQtz((2, 8), PACTAct)
-    inp = MPSIdentity(MPSPerLayerQtz((8,), PACTAct))
-    l1 = MPSConv2d(nn.Conv2d(1, 2, 1), act, MPSPerLayerQtz((4, 8), MinMaxWeight, {'cout': 2}), MPSBiasQtz(QuantizerBias, {'precision': 32, 'cout': 2}))
-    l2 = MPSLinear(nn.Linear(2, 2), MPSPerLayerQtz((8,), PACTAct), MPSPerLayerQtz((2, 8), MinMaxWeight, {'cout': 2}), MPSBiasQtz(QuantizerBias, {'precision': 32, 'cout': 2}))
+def _mps_model(H, spec, full_cost, gumbel=False):
+    act = MPSPerLayerQtz((2, 8), PACTAct, gumbel_softmax=gumbel)
+    inp = MPSIdentity(MPSPerLayerQtz((8,), PACTAct, gumbel_softmax=gumbel))
+    l1 = MPSConv2d(nn.Conv2d(1, 2, 1), act, MPSPerLayerQtz((4, 8), MinMaxWeight, {'cout': 2}, gumbel_softmax=gumbel), MPSBiasQtz(QuantizerBias, {'precision': 32, 'cout': 2}))
+    l2 = MPSLinear(nn.Linear(2, 2), MPSPerLayerQtz((8,), PACTAct, gumbel_softmax=gumbel), MPSPerLayerQtz((2, 8), MinMaxWeight, {'cout': 2}, gumbel_softmax=gumbel),
+                   MPSBiasQtz(QuantizerBias, {'precision': 32, 'cout': 2}))
     l1.in_mps_quantizer = inp.out_mps_quantizer
     l2.in_mps_quantizer = act
     l1.input_features_calculator = ConstFeaturesCalculator(1)
@@ -183,7 +184,7 @@ def _mps_model(H, spec, full_cost):
     leaf = [('inp', Node('inp', (1, 1, 2, 2)), inp), ('l1', Node('l1', (1, 2, 2, 2)), l1), ('plain', Node('plain', (1, 2, 2, 2)), plain),
             ('l1', Node('l1', (1, 2, 1, 1)), l1), ('l2', Node('l2', (1, 2)), l2)]
     H.patch('plinio.methods.mps.mps', 'convert', lambda *a, **k: (seed, leaf, uniquify_leaf_modules(leaf)))
-    model = MPS(nn.Sequential(nn.Conv2d(1, 2, 1)), cost=spec, input_example=torch.zeros(1, 1, 2, 2), full_cost=full_cost)
+    model = MPS(nn.Sequential(nn.Conv2d(1, 2, 1)), cost=spec, input_example=torch.zeros(1, 1, 2, 2), full_cost=full_cost, gumbel_softmax=gumbel)
     return model, inp, l1, l2, plain, act
 
 
@@ -200,15 +201,21 @@ def _mps_probe(shared, wc, wl):
     return s, f_conv, f_lin
 
 
-def h_mps_cost(H, shared, full_cost):
+def h_mps_cost(H, shared, full_cost, train_gumbel=False):
     wc, wl = H.real('w_conv'), H.real('w_lin')
     spec, f_conv, f_lin = _mps_probe(shared, wc, wl)
-    model, inp, l1, l2, plain, act = _mps_model(H, spec, full_cost)
-    model.eval()
+    model, inp, l1, l2, plain, act = _mps_model(H, spec, full_cost, train_gumbel)
+    model.train(train_gumbel)
     for q in (inp.out_mps_quantizer, act, l1.w_mps_quantizer, l2.out_mps_quantizer, l2.w_mps_quantizer):
         q.sample_alpha()                       # the forward pass the statement presupposes
     state0 = _observables(H, model, [l1, l2, plain])
     c = H.scalar(model.cost)
+    if train_gumbel:
+        # training with Gumbel noise: the cost is a relaxed mix, but reading it is still an observer (no new noise is drawn)
+        H.ensure('mps-cost:repeatable', H.eq(H.scalar(model.get_cost()), c))
+        model.summary()
+        _check_observers(H, 'mps', model, [l1, l2, plain], state0)
+        return
     s1, s2 = l1.summary(), l2.summary()
     inv = [(1, 2, 2, 2)] if shared else [(1, 2, 2, 2), (1, 2, 1, 1)]
     tot = 0
@@ -464,7 +471,8 @@ HARNESSES = [
          quick=[dict(training=t) for t in _B], thorough=[dict(training=t) for t in _B]),
     dict(name='mps-cost', fn='h_mps_cost', property=['C05', 'C18'],
          functions=[_P + 'mps/mps.py::MPS._get_single_cost', _P + 'mps/mps.py::MPS._single_cost_fn_map', _P + 'mps/mps.py::MPS.__init__', _P + 'mps/mps.py::MPS.summary'],
-         quick=[dict(shared=s, full_cost=f) for s in _B for f in _B], thorough=[dict(shared=s, full_cost=f) for s in _B for f in _B], timeout=60),
+         quick=[dict(shared=s, full_cost=f) for s in _B for f in _B] + [dict(shared=True, full_cost=False, train_gumbel=True)],
+         thorough=[dict(shared=s, full_cost=f, train_gumbel=g) for s in _B for f in _B for g in (False, True)], timeout=60),
     dict(name='supernet-cost', fn='h_supernet_cost', property=['C06', 'C18'],
          functions=[_P + 'supernet/supernet.py::SuperNet._get_single_cost', _P + 'supernet/supernet.py::SuperNet._single_cost_fn_map', _P + 'supernet/supernet.py::SuperNet.__init__',
                     _P + 'supernet/nn/combiner.py::SuperNetCombiner.get_cost', _P + 'supernet/nn/combiner.py::SuperNetCombiner.set_sn_branch'],
